@@ -218,12 +218,14 @@ async def run_map(backend, save_roles, query_roles, counters, seed):
         # ---- query (stored) ------------------------------------------------------------------------
         stored_ids = set(d["events"].keys())
         together = seed % 2 == 0
+        # (most runs ask with a tag condition as well: a refusal is the same NOTICE whatever the filters look like)
+        QF = [{"kinds": [1, 31494]}] + ([{"kinds": [4], "#p": ["00" * 32, "ab"]}, {"#e": ["x"], "#t": ["a", ""]}] if seed % 3 != 0 else [])
         n0_all = rig.rec.n
         if together:
             # every connection's REQ is in flight at the same time
             for rs, c in conns.items():
                 if not c.exited:
-                    c.feed(["REQ", "q", {"kinds": [1, 31494]}])
+                    c.feed(["REQ", "q"] + QF)
             for rs, c in conns.items():
                 if not c.exited:
                     await c.processed()
@@ -236,7 +238,7 @@ async def run_map(backend, save_roles, query_roles, counters, seed):
             n0 = n0_all
             if not together:
                 n0 = rig.rec.n
-                await c.cmd(["REQ", "q", {"kinds": [1, 31494]}])
+                await c.cmd(["REQ", "q"] + QF)
                 await rig.quiesce()
             fr = [f for n, f in c.parsed_frames(n0) if isinstance(f, list)]
             evs = [f for f in fr if f[0] == "EVENT"]
@@ -380,6 +382,30 @@ async def run_readback(backend, n, counters, seed):
             if got != want and not (want == set() and got in (set(), {"a"})):
                 viols.append({"key": "%s/readback/final" % backend, "msg": "[%s] after assignments %s the roles read back as %s" % (backend, seq, sorted(got)),
                               "replay": {"backend": backend, "mode": "readback", "seed": seed, "n": n}})
+        # ---- assignments that pile up behind a busy writer (another process holds the LMDB write lock, the queue is
+        # backed up): A, B, A in a row - what is read back afterwards is the LAST assignment
+        if backend == "lmdb":
+            for i, (a, b) in enumerate((("r", "w"), ("w", "r"), ("rw", ""), ("a", "w"))):
+                k = ref.key_from_seed("c14-aba-%d-%d" % (seed, i))
+                await rig.storage.set_auth_roles(k.pk, a)
+                await rig.quiesce()
+                txn = rig.storage.db.begin(write=True)  # the writer thread now waits for the lock
+                try:
+                    for roles in (b, a):
+                        await rig.storage.set_auth_roles(k.pk, roles)
+                        await asyncio.sleep(0.01)
+                finally:
+                    txn.abort()
+                await rig.quiesce()
+                got = await rig.storage.get_auth_roles(k.pk)
+                want = set(a)
+                rb["aba_sequences"] = rb.get("aba_sequences", 0) + 1
+                nontrivial.append(h([backend, "readback-aba", a, b]))
+                final_roles[k.pk] = want
+                if got != want:
+                    viols.append({"key": "%s/readback/last-assignment-lost-behind-busy-writer" % backend,
+                                  "msg": "[%s] roles set to %r, then (while another writer held the write lock) to %r and back to %r: read back as %s" % (backend, a, b, a, sorted(got)),
+                                  "replay": {"backend": backend, "mode": "readback", "seed": seed, "n": n}})
         # the whole table, as `nostr-relay role get` lists it
         listing = {}
         async for pk, roles in rig.storage.get_all_auth_roles():
